@@ -1476,6 +1476,9 @@ static int cfg_parse_internal(cfg_t *cfg, int level, int force_state, cfg_opt_t 
 					break;
 				}
 
+				/* cfg_getopt() has reported the unknown name, but it is silent about an empty one */
+				if (!cfg_yylval[0])
+					cfg_error(cfg, _("missing option name"));
 				goto error;
 			}
 
